@@ -10,7 +10,7 @@ from vf.core import Prop, Result
 from vf.props.c05 import NAMES, parse_text, sexp_counts
 
 API_NAMES = ["a", "b", "c", "d", "clk", "data", "q", "sel", "Top", "U1", "n_1", "x y", "a.b", "3d",
-             "w/e", "net$1", "Q", "B", "row[0].q", "m[2]x", "Sel", "SEL", "Data", "DATA", "TOP", "_u", "$v",
+             "w/e", "net$1", "Q", "B", "row[0].q", "m[2]x", "Sel", "SEL", "Data", "DATA", "TOP", "_u", "$v", "[1]",
              "L" * 255, "k" + "9" * 253]
 
 
@@ -86,7 +86,7 @@ class C03(Prop):
             "pin; distinct = distinct case JSON")
     ASSUMPTIONS = ["port base indices are not part of the comparison (not claimed by the property)",
                    "names contain no wildcard characters * ? (the view is name-keyed)"]
-    N = {"quick": 2000, "thorough": 30000}
+    N = {"quick": 6000, "thorough": 60000}
     CASE_TIMEOUT_S = 120
 
     def cfg(self, tier, api):
@@ -144,9 +144,17 @@ class C03(Prop):
                     nl = nl.clone()
                 else:
                     import spydrnet.uniquify as U
+                    if any(D.name is not None and len(D.name) > 230 for L in nl.libraries
+                           for D in L.definitions):
+                        # name + _sdn_unique_N would pass the identifier length limit: that is the
+                        # recorded C17 finding (256-character cut), kept out by construction
+                        res.label("uniquify-skipped(names at the length limit)")
+                        raise StopIteration
                     U.MOD_NAME_UID = 0
                     U.uniquify(nl)
                 res.label("netlist-is-product-of-" + case["pre"])
+            except StopIteration:
+                pass
             except Exception:  # noqa (C07/C08's business)
                 res.label("pre-transform-raised")
                 return res
